@@ -171,7 +171,10 @@ Definition insert_p (t : ptier) (e : point) (mode : insmode) : res ptier :=
          | IError => Err CollisionError
          end
      end;
-  Ok (mkPT (pname t) (isortp l') (pmin t) (pmax t)).
+  let s := isortp l' in
+  let mn' := match s with p0 :: _ => if ptime p0 <? pmin t then ptime p0 else pmin t | [] => pmin t end in
+  let mx' := match last_opt s with Some pl => if pmax t <? ptime pl then ptime pl else pmax t | None => pmax t end in
+  Ok (mkPT (pname t) s mn' mx').
 
 (* ------------------------------------------------------------------ *)
 (* eraseRegion                                                         *)
